@@ -3,6 +3,8 @@ package main
 import (
 	"go/types"
 	"reflect"
+
+	"golang.org/x/tools/go/ssa"
 )
 
 // Models added for the second round of seeded changes: reflect.MapIter, sync.Map.
@@ -145,4 +147,120 @@ func init() {
 		}
 		return nil
 	}
+}
+
+// sync/atomic: sequentially consistent single operations on a cell; each is a synchronisation point
+// for the interleaving exploration.
+func init() {
+	cell := func(e *Engine, v Value) *Value {
+		p, ok := v.(*Value)
+		if !ok || p == nil {
+			e.goPanicStr("invalid memory address or nil pointer dereference (atomic)")
+		}
+		return p
+	}
+	for _, suf := range []string{"Pointer", "Int32", "Int64", "Uint32", "Uint64", "Uintptr"} {
+		intrinsics["sync/atomic.Load"+suf] = func(e *Engine, a []Value) Value {
+			e.yield()
+			return copyVal(*cell(e, a[0]))
+		}
+		intrinsics["sync/atomic.Store"+suf] = func(e *Engine, a []Value) Value {
+			e.yield()
+			*cell(e, a[0]) = a[1]
+			return nil
+		}
+		intrinsics["sync/atomic.Swap"+suf] = func(e *Engine, a []Value) Value {
+			e.yield()
+			c := cell(e, a[0])
+			old := *c
+			*c = a[1]
+			return old
+		}
+		isPtr := suf == "Pointer"
+		intrinsics["sync/atomic.CompareAndSwap"+suf] = func(e *Engine, a []Value) Value {
+			e.yield()
+			c := cell(e, a[0])
+			eq := false
+			if isPtr {
+				eq = *c == a[1]
+			} else {
+				eq = e.Branch(mkEq((*c).(Int).term(), a[1].(Int).term()))
+			}
+			if eq {
+				*c = a[2]
+			}
+			return Bool{V: eq}
+		}
+		if !isPtr {
+			intrinsics["sync/atomic.Add"+suf] = func(e *Engine, a []Value) Value {
+				e.yield()
+				c := cell(e, a[0])
+				x, d := (*c).(Int), a[1].(Int)
+				var r Int
+				if x.T == nil && d.T == nil {
+					r = mkInt(x.W, x.V+d.V)
+				} else {
+					r = Int{W: x.W, T: mk("bvadd", x.W, x.term(), d.term())}
+				}
+				*c = r
+				return r
+			}
+		}
+	}
+}
+
+// runtime.GC: the only effect the interpreted program can observe is that sync.Pool contents are
+// dropped (the runtime needs two collections to drop the victim cache as well; the model drops
+// everything at once, and harnesses call it twice).
+func init() {
+	intrinsics["runtime.GC"] = func(e *Engine, a []Value) Value {
+		for p, st := range e.pools {
+			for _, v := range st {
+				e.ownPooled(v, false)
+			}
+			delete(e.pools, p)
+		}
+		for p, v := range e.poolPrivate {
+			e.ownPooled(v, false)
+			delete(e.poolPrivate, p)
+		}
+		return nil
+	}
+}
+
+// reflect.Value.Pointer / UnsafePointer: an identity number of the referenced object (the address of the
+// interpreter's own cell, which is stable for the lifetime of the path and distinct per object).
+func init() {
+	ptrID := func(e *Engine, a []Value) Value {
+		v := a[0].(RV)
+		var id uintptr
+		switch x := v.V.(type) {
+		case Slice:
+			if !x.Nil && x.A != nil && x.Off < len(*x.A) {
+				id = reflect.ValueOf(&(*x.A)[x.Off]).Pointer()
+			}
+		case *MapV:
+			if x != nil {
+				id = reflect.ValueOf(x).Pointer()
+			}
+		case *Value:
+			if x != nil {
+				id = reflect.ValueOf(x).Pointer()
+			}
+		case *Closure:
+			// a func value's Pointer is its code address: closures and method values of one function share it
+			if x != nil {
+				id = reflect.ValueOf(x.Fn).Pointer()
+			}
+		case *ssa.Function:
+			if x != nil {
+				id = reflect.ValueOf(x).Pointer()
+			}
+		default:
+			e.reflectPanic("call of reflect.Value.Pointer on " + e.rvKind(v).String() + " Value")
+		}
+		return mkInt(64, uint64(id))
+	}
+	intrinsics["(reflect.Value).Pointer"] = ptrID
+	intrinsics["(reflect.Value).UnsafePointer"] = ptrID
 }
